@@ -307,6 +307,16 @@ def _dispatch(chk, repo, mod, W):
     chk.floor("C07.dispatch", n_tab, 50, "scenarios walked")
 
 
+class _RenameKV(ast.NodeTransformer):
+    def __init__(self, m):
+        self.m = m
+
+    def visit_Name(self, n):
+        if n.id in self.m:
+            return ast.Name(id=self.m[n.id], ctx=n.ctx)
+        return n
+
+
 def run(chk, repo):
     mod = repo.mod(LP)
     W = lambda q: "%s:%s" % (mod.relpath, q)
@@ -682,19 +692,51 @@ def run(chk, repo):
                              "k = -1; diff after integrate is the identity on (k, v); diff is linear in v")
     df = repo.find(LP, "Poly.diff")
     it = repo.find(LP, "Poly.integrate")
-    dg = [n for n in ast.walk(df) if isinstance(n, ast.GeneratorExp)]
-    ig = [n for n in ast.walk(it) if isinstance(n, ast.GeneratorExp)]
-    chk.require(len(dg) == 1 and len(ig) == 1, "Poly.diff / integrate: generator expressions not found")
+    def term_map(fn_):
+        """(new power, new coefficient, [filter texts in terms of k]) of the one term-by-term map of the function: a
+        generator expression of pairs over the items of a term store, or a loop that stores D[K] = V item by item
+        (temporaries of the loop body resolved); powers and coefficients are called k and v"""
+        gens = [n for n in ast.walk(fn_) if isinstance(n, ast.GeneratorExp) and isinstance(n.elt, ast.Tuple) and len(n.elt.elts) == 2]
+        if len(gens) == 1 and len(gens[0].generators) == 1 and isinstance(gens[0].generators[0].target, ast.Tuple) \
+                and len(gens[0].generators[0].target.elts) == 2:
+            g_ = gens[0].generators[0]
+            kn, vn = [unparse(t_) for t_ in g_.target.elts]
+            env_ = {kn: RF.sym("k"), vn: RF.sym("v")}
+            ren = lambda t_: unparse(_RenameKV({kn: "k", vn: "v"}).visit(ast.parse(unparse(t_), mode="eval").body))
+            return Evaluator(env_).ev(gens[0].elt.elts[0]), Evaluator(env_).ev(gens[0].elt.elts[1]), [ren(f_) for f_ in g_.ifs]
+        loops = [n for n in ast.walk(fn_) if isinstance(n, ast.For) and isinstance(n.target, ast.Tuple) and len(n.target.elts) == 2
+                 and isinstance(n.iter, ast.Call) and unparse(n.iter.func) in ("iteritems",)]
+        if len(loops) == 1 and not loops[0].orelse:
+            lp_ = loops[0]
+            kn, vn = [unparse(t_) for t_ in lp_.target.elts]
+            env_ = {kn: RF.sym("k"), vn: RF.sym("v")}
+            ren = lambda t_: unparse(_RenameKV({kn: "k", vn: "v"}).visit(ast.parse(unparse(t_), mode="eval").body))
+            filt = []
+            blk_ = list(lp_.body)
+            while len(blk_) == 1 and isinstance(blk_[0], ast.If) and not blk_[0].orelse:
+                filt.append(ren(blk_[0].test))
+                blk_ = list(blk_[0].body)
+            stores_ = []
+            for st_ in blk_:
+                if isinstance(st_, ast.Assign) and len(st_.targets) == 1 and isinstance(st_.targets[0], ast.Name):
+                    env_[st_.targets[0].id] = Evaluator(env_).ev(st_.value)
+                elif isinstance(st_, ast.Assign) and len(st_.targets) == 1 and isinstance(st_.targets[0], ast.Subscript) \
+                        and isinstance(st_.targets[0].value, ast.Name):
+                    stores_.append(st_)
+                else:
+                    raise Inconclusive("statement %s in the term loop" % short(st_))
+            if len(stores_) == 1:
+                return Evaluator(env_).ev(stores_[0].targets[0].slice), Evaluator(env_).ev(stores_[0].value), filt
+        raise Inconclusive("no term-by-term map found")
     try:
-        dk, dv = [Evaluator().ev(e) for e in dg[0].elt.elts]
-        ik, iv = [Evaluator().ev(e) for e in ig[0].elt.elts]
+        dk, dv, dfilt = term_map(df)
+        ik, iv, ifilt = term_map(it)
     except (Inconclusive, AttributeError) as ex:
         raise AnalysisError("diff/integrate maps not interpretable: %s" % ex)
     k, v = RF.sym("k"), RF.sym("v")
     chk.decide(dk == k - 1 and dv == k * v, "C07.calculus", W("Poly.diff"), "(k, v) -> (%s, %s)" % (dk.key(), dv.key()),
                why="power rule: d/dx v x^k = k v x^(k-1)", node=df)
-    ifs = dg[0].generators[0].ifs
-    chk.decide(len(ifs) == 1 and unparse(ifs[0]) == "k != 0", "C07.calculus", W("Poly.diff"), "constant term dropped (k != 0)",
+    chk.decide(dfilt in (["k != 0"], ["0 != k"]), "C07.calculus", W("Poly.diff"), "constant term dropped (k != 0)",
                why="the derivative of the constant term must vanish, not be stored at k = -1", node=df)
     chk.decide(ik == k + 1 and iv == v / (k + 1), "C07.calculus", W("Poly.integrate"), "(k, v) -> (%s, %s)" % (ik.key(), iv.key()),
                why="anti-derivative: v x^k -> v/(k+1) x^(k+1)", node=it)
@@ -707,7 +749,7 @@ def run(chk, repo):
     g = [s for s in docstring_free(it.body) if isinstance(s, ast.If)]
     chk.decide(len(g) == 1 and unparse(g[0].test) == "-1 in self._data" and "ValueError" in unparse(g[0].body[0]),
                "C07.calculus", W("Poly.integrate"), "x^-1 term refused", why="1/x has no polynomial anti-derivative", node=it)
-    lp = [n for n in ast.walk(df) if isinstance(n, ast.For)]
+    lp = [n for n in ast.walk(df) if isinstance(n, ast.For) and not (isinstance(n.iter, ast.Call) and unparse(n.iter.func) == "iteritems")]
     chk.decide(len(lp) == 1 and unparse(lp[0].iter) in ("xrange(n)", "range(n)"), "C07.calculus", W("Poly.diff"),
                "n-th derivative applies the map n times", why="diff(n) must iterate n times", node=df)
 
